@@ -27,6 +27,7 @@ Definition combine {A B} (l : list A) (m : list B) : list (A * B) := List.combin
 LAMS = [0.125, 0.5, 1.0, 2.0, 8.0, 32.0, 0.3, 10.0]
 MODELS = ['LinearGAM', 'LinearGAM-known', 'PoissonGAM', 'PoissonGAM-exposure', 'LogisticGAM', 'GammaGAM']
 F_POISSON = 'C10-poissongam-gridsearch-weights-as-exposure'
+F_SKIP = 'C10-joint-grid-skips-valid-candidates'
 OBJECTIVES = ['auto', 'auto', 'auto', 'GCV', 'UBRE', 'AIC', 'AICc']
 
 
@@ -323,7 +324,12 @@ def evaluate(res, cfg):
     # --- independent enumeration and independent cold fits
     per_param = [grid_values(grids_eff[nm], k) for nm in eff_names]
     enum = list(itertools.product(*per_param))
-    returned = list(r.items())
+    if isinstance(r, dict):
+        returned = list(r.items())
+    else:
+        returned = []                       # 'No models were fitted.': the call returns self whatever return_scores says
+        if r is not twin:
+            viol('return value with return_scores=True is neither a dict nor self', 'dict or self', type(r).__name__)
     if cfg['fitted'] and returned:
         # the first key is the searched object itself; with keep_best it has meanwhile received the attributes of the
         # best model, so its state when it was scored is the pre-call copy g0
@@ -331,56 +337,69 @@ def evaluate(res, cfg):
     cand_models = returned[1:] if cfg['fitted'] else returned
     outcomes, cands_coq = [], []
     pos = 0
-    ok_structure = True
     for combo in enum:
         hp = dict(n_splines=list(cfg['base_ns']), spline_order=[3] * k, lam=[0.6] * k)
         for nm, (kind, v) in zip(eff_names, combo):
             hp[nm] = [v] * k if kind == 's' else list(v)
+        want = dict(lam=[float(v) for v in hp['lam']], n_splines=[int(v) for v in hp['n_splines']], spline_order=[int(v) for v in hp['spline_order']])
         try:
             h = build(cfg, ns=hp['n_splines'], so=hp['spline_order'], lam=hp['lam'])
             fit(cfg, h, X, y, expo, w)
             indep = float(h.statistics_[want_obj])
         except ValueError:
-            outcomes.append('None')
-            continue
+            indep = None
         except Exception as e:
             res.count('independent-fit-error:%s' % type(e).__name__)
             return None
-        if pos >= len(cand_models):
-            viol('gridsearch fitted fewer candidates than the Cartesian product of the grids', len(enum), len(cand_models))
-            ok_structure = False
-            break
+        matched = pos < len(cand_models) and hyper(cand_models[pos][0]) == want
+        if not matched:
+            outcomes.append('None')
+            if indep is not None:
+                # a candidate that can be fitted on its own is missing from the search: is it the one-at-a-time
+                # set_params validating an intermediate (old spline_order, new n_splines) state?
+                seq_fails = False
+                try:
+                    c = build(cfg)
+                    c._validate_params()
+                    c._validate_data_dep_params(X)
+                    for nm, (kind, v) in zip(eff_names, combo):
+                        c.set_params(**{nm: (v if kind == 's' else np.array(v))})
+                except ValueError:
+                    seq_fails = True
+                except Exception:
+                    pass
+                viol('a valid element of the Cartesian product was silently skipped by gridsearch', want,
+                     dict(fitted_candidates=[hyper(m) for m, _ in cand_models][:12]), finding=F_SKIP if seq_fails else None)
+                res.count('valid-candidate-skipped')
+            continue
         m, sc = cand_models[pos]
         pos += 1
-        got = hyper(m)
-        want = dict(lam=[float(v) for v in hp['lam']], n_splines=[int(v) for v in hp['n_splines']], spline_order=[int(v) for v in hp['spline_order']])
-        if got != want:
-            viol('candidate %d of the search has other hyper-parameters than the %d-th element of the Cartesian product' % (pos - 1, pos - 1), want, got)
-            ok_structure = False
         es = escore(sc)
         if es is None:
             res.count('nan-score')
             return None
         outcomes.append('(Some %s)' % es)
-        cands_coq.append(coq_list(['("%s", %s)' % (nm, coq_list([qlit(frac_of_float(v)) for v in got[nm]])) for nm in eff_names]))
+        cands_coq.append(coq_list(['("%s", %s)' % (nm, coq_list([qlit(frac_of_float(v)) for v in want[nm]])) for nm in eff_names]))
         if float(sc) != float(m.statistics_[want_obj]):
             viol('returned score is not statistics_[%s] of the returned model' % want_obj, float(m.statistics_[want_obj]), float(sc))
-        if not (abs(float(sc) - indep) <= SCORE_RTOL * max(1.0, abs(indep))):
+        if indep is None:
+            viol('gridsearch fitted a candidate that cannot be fitted on its own', 'ValueError', dict(hyper=want, score=float(sc)))
+        elif not (abs(float(sc) - indep) <= SCORE_RTOL * max(1.0, abs(indep))):
             viol('candidate score differs from the objective of an independently fitted model with the same hyper-parameters',
                  indep, dict(score=float(sc), hyper=want), finding=F_POISSON if poisson_defect else None)
-    if ok_structure and pos != len(cand_models):
-        viol('gridsearch fitted more candidates than the Cartesian product of the grids (or one that cannot be fitted independently)',
-             pos, len(cand_models))
-        ok_structure = False
-    if not ok_structure:
+    if pos != len(cand_models):
+        viol('gridsearch fitted a candidate that is not the next element of the Cartesian product of the grids',
+             [hyper(m) for m, _ in cand_models[:pos]][-3:], hyper(cand_models[pos][0]))
         return None
 
     # --- what the call left behind
     scores = [float(s_) for _, s_ in returned]
     kept = [i for i, (m, _) in enumerate(returned) if same_model(actual, m)]
     self_changed = not same_model(actual, g0)
-    ret_scores = not (ret is actual)
-    if cfg['return_scores'] != ret_scores:
+    ret_scores = isinstance(ret, dict)
+    if not ret_scores and ret is not actual:
+        viol('return value is neither a dict nor self', 'self', type(ret).__name__)
+    if cfg['return_scores'] != ret_scores and returned:
         viol('return value shape', 'dict' if cfg['return_scores'] else 'self', type(ret).__name__)
     if ret_scores and [float(v) for v in ret.values()] != scores:
         viol('scores differ between two identical calls', scores, [float(v) for v in ret.values()])
@@ -409,7 +428,7 @@ def evaluate(res, cfg):
                                         coq_list(['"%s"' % nm for nm in obj_names]))
     case = head + ' %s %s)' % (coq_list(outcomes), obs)
     res.count('candidates:%s' % ('2-4' if len(enum) <= 4 else '5-12' if len(enum) <= 12 else '13+'))
-    res.count('skipped-candidates:%d' % outcomes.count('None') if outcomes.count('None') else 'skipped-candidates:0')
+    res.count('cases-with-skipped-candidates' if outcomes.count('None') else 'cases-without-skipped-candidates')
     return case, dict(cfg=inp, n_candidates=len(enum), rejected=False, scores=scores[:12])
 
 
